@@ -173,7 +173,7 @@ def group_step(data, sq, L, lay, gi, vals, complete=False):
         sq.c()
         return True
     modes = ["range", "range", "iter"] + ([] if complete else ["none"])
-    if flat and n > 0 and not complete:
+    if n > 0 and not complete:
         modes += ["sub", "subc"]
     mode = data.draw(st.sampled_from(modes))
     if mode == "none":
@@ -266,7 +266,7 @@ def run(t, budget=1.0):
     def body(data):
         entry, mi, L = pc.draw_target(data)
         M = entry.model
-        vals = data.draw(values.level_values(L, max_entries=3, inflate=data.draw(st.booleans())))
+        vals = data.draw(values.level_values(L, max_entries=3, inflate=data.draw(st.booleans()), model=M))
         img, size = M.encode_message(L, vals, background=data.draw(st.sampled_from([0, 0xFF, 0x6B])))
         lay = layout_level(M, L, vals, M.header.size, vals.get("extra", 0))
         assert lay["end"] == size
